@@ -49,15 +49,21 @@ PROPS.update({
         "title": "Every well-formed PDU survives encode then decode unchanged",
         "kani": ["c05_fixed", "c05_header", "c05_var", "c05_userops", "c05_report", "c05_wrap"],
         "kani_quick": _QS["C05"],      # harnesses measured reliable and fast (kani/quick_sets.json); thorough = all families
+        "native": [{"prog": "roundtrip_bounded", "quick": ["search", "quick"], "thorough": ["search", "thorough"], "obligation": "O-C05-roundtrip-N",
+                    "fn": "PDU::encode / PDU::decode and the per-type codecs", "file": "cfdp-core/src/pdu.rs",
+                    "bound": "deterministic enumeration of well-formed values of 39 types (every PDU kind, all 16 id-width pairs incl. mixed, every enumerated field value, boundary numbers, "
+                             "names of length 0/1/255): ~1.1 M values quick, ~8.9 M thorough"}],
         "level": "other",
-        "technique": "Kani/CBMC proof harnesses over the real codec, one per concrete shape, value fields fully symbolic",
+        "technique": "Kani/CBMC proof harnesses over the real codec, one per concrete shape, value fields fully symbolic; + BOUNDED native enumeration of the shapes the quick tier leaves to the thorough tier",
         "design_ref": "DESIGN.md 4/C05, kani/README.md",
         "level_text": "Per concrete shape (every length-determining discrete choice enumerated: identifier widths 1/2/4/8, file-size flag, CRC flag, "
                       "directive / TLV / message-type code, string and list lengths) a Kani harness proves for ALL values of the remaining fields (full-width "
                       "symbolic) that encode(x).len() == encoded_len(x) == the wire-format length, every type/length octet has its wire-format value, and "
                       "decode(encode(x)) == Ok(x). Families c05_fixed, c05_header, c05_report are COMPLETE (no bound); c05_var, c05_userops, c05_wrap are "
                       "BOUNDED in string/list length (quick: lengths 0..2; thorough: 3, 255-octet bodies, 63-octet segment metadata). Types with private "
-                      "fields (SFORequest, SFOReport, ProxySegmentationControl) are proved from the decoder side.",
+                      "fields (SFORequest, SFOReport, ProxySegmentationControl) are proved from the decoder side. The quick tier runs the subset of harnesses in "
+                      "kani/quick_sets.json (corner width shapes); the shapes left to the thorough tier are covered on every change by the BOUNDED native enumeration "
+                      "roundtrip_bounded (concrete values only: all width pairs, every enumerated field value, boundary numbers), which is not counted as proof.",
         "level_note": "Trusted: Kani 0.68 + CBMC 6.11; the UTF-8 validator stub (cross-checked natively); file names ASCII in the constructive harnesses; "
                       "string equality of file names; the generator's model of the wire format (gen.py), itself checked by the decode-side harnesses. "
                       "Bounded families are labelled bounded in the evidence and are not counted as proofs for all lengths.",
@@ -128,6 +134,25 @@ PROPS.update({
                       "NOT decided: the delayed-NAK prologue of handle_timeout (stub), 'no unsolicited NAK before EOF under the deferred procedure' "
                       "(would need a history invariant over process_pdu calls), configuration assumption segment size >= 2 x FSS.",
         "level_note": VERUS_NOTE,
+    },
+    "C12": {
+        "title": "Filestore operations cannot reach outside the filestore root",
+        "verus": [],
+        "native": [{"prog": "paths_bounded", "quick": ["search", "@SANDBOX@", "quick"], "thorough": ["search", "@SANDBOX@", "thorough"], "obligation": "O-C12-confined-N",
+                    "fn": "NativeFileStore::get_native_path", "file": "cfdp-core/src/filestore.rs",
+                    "bound": "names of <= 3 (4 thorough) components from {.., ., a, d, in.txt, outside.txt, outdir, rootx} x 8 prefixes (none, /, //, <root>/, <root>, <root>x/, "
+                             "<root>/../, <root>/./) x trailing slash; every FileStore operation and every process_request action executed in a sandbox"}],
+        "level": "other",
+        "technique": "BOUNDED native check of the real NativeFileStore (exhaustive over a small name grammar, operations executed in a sandbox with sentinels); no contract-based proof: "
+                     "path parsing (camino/std::path components, Peekable) is outside Verus' subset and symbolic-length strings are outside Kani's reliable range",
+        "design_ref": "DESIGN.md 4/C12",
+        "level_text": "BOUNDED, not proved: for every name of the enumeration (a) the lexical resolution of get_native_path(name) stays under the root component-wise, and (b) "
+                      "create_file, delete_file, create_directory, remove_directory, get_size, list_directory, open (read / create+write), rename_file, append_file, "
+                      "replace_file (each argument position) and process_request for every action, executed on the real file system in a sandbox, leave the sentinels outside the "
+                      "root untouched, create nothing next to the root and return no sentinel data. Names outside the grammar, symbolic links inside the root, other FileStore "
+                      "implementations and Windows prefixes are not covered.",
+        "level_note": "Native program replay/core_native/src/bin/paths_bounded.rs compiled against /repo's cfdp-core (path dependency, overflow checks on). Bounded stand-in only: "
+                      "nothing here is counted as proved. ",
     },
     "C14": {
         "title": "The file checksum is the CCSDS modular checksum, however the data is read",
@@ -223,7 +248,6 @@ NOT_APPLICABLE = {
     "C03": "bounded-time termination for every peer/link behaviour is liveness plus real time; only the timer loop's own termination is a contract (proved under C17)",
     "C10": "cancel handshakes at both entities under every interleaving and loss pattern: schedules and a peer; the single-entity fragments live in process_pdu (async/iterator-heavy, outside the verifiers' subset)",
     "C11": "isolation of concurrent tokio tasks and routing inside async fn forward_pdu: Kani has no async/thread support, Verus has no model of tokio channels; nothing here is a function contract",
-    "C12": "path confinement is a theorem about path strings ('..', separators, prefixes): Verus has no string theory and camino/std path parsing under Kani needs symbolic-length buffers (spurious mode); assumed components()/join() contracts would only restate the assumption",
     "C13": "each request's outcome is a function of live filesystem state (exists, is_file, syscalls) which no verifier here executes or models",
     "C16": "the obligation (decode only the n bytes received) is one argument expression inside an async trait method awaiting a UDP socket; neither tool verifies async bodies or socket history",
     "C18": "one-way/closure behaviour is the interplay of both state machines' process_pdu/send_pdu reactions; not expressible as contracts on the functions within reach",
